@@ -94,3 +94,19 @@ Example tsr_marks_exercised :
     Some (true, true, S2B "/{a}/x/").
 Proof. exact Alloc2.tsr_marks_exercised. Qed.
 Print Assumptions tsr_marks_exercised.
+
+(* the tree invariant params_bounded assumes is kept by Tree.insert (tXn.insert), given that
+   psLen counts the wildcards of the pattern (the case files evaluate it on every dumped tree) *)
+Theorem insert_keeps_wroots : forall t m ri t',
+  insert t m ri = ROk t' ->
+  W (rpat (ri_route ri)) <= ri_pslen ri ->
+  wroots (t_roots t) <= t_maxparams t ->
+  wroots (t_roots t') <= t_maxparams t'.
+Proof. exact Alloc2.insert_keeps_wroots. Qed.
+Print Assumptions insert_keeps_wroots.
+
+Example insert_keeps_wroots_example :
+  exists t', insert empty_txn (S2B "GET") {| ri_route := {| rpat := S2B "/a/{x}/*{y}"; rid := 0%N |}; ri_pslen := 2; ri_hostsplit := 0 |} = ROk t'
+             /\ wroots (t_roots t') = 2 /\ t_maxparams t' = 2.
+Proof. exact Alloc2.insert_keeps_wroots_example. Qed.
+Print Assumptions insert_keeps_wroots_example.
